@@ -443,19 +443,17 @@ impl RdbEngine {
                     #[cfg(ferrous_verif)]
                     crate::verif::gate_tagged("rdb:before_key", &key);
                     
-                    // Get value
-                    match storage.get(db_idx, &key)? {
-                        GetResult::Found(value) => {
+                    // Get value and TTL together: read separately, a write between the
+                    // two reads would pair the old value with the new TTL
+                    match storage.get_with_ttl(db_idx, &key)? {
+                        Some((value, ttl)) => {
                             #[cfg(ferrous_verif)]
                             crate::verif::gate_tagged("rdb:between_value_and_ttl", &key);
-                            
-                            // Get TTL if any
-                            let ttl = storage.ttl(db_idx, &key)?;
                             
                             // Write key-value pair
                             writer.write_key_value(&key, &value, ttl)?;
                         }
-                        _ => {
+                        None => {
                             // Key doesn't exist or expired, skip
                         }
                     }
